@@ -247,7 +247,7 @@ pub fn run_main(
         }
         return;
     }
-    let budget = args.budget.unwrap_or(if args.tier == "thorough" { 2_000_000 } else { 20_000 });
+    let budget = args.budget.unwrap_or(if args.tier == "thorough" { 2_000_000 } else { 40_000 });
     let next = AtomicUsize::new(0);
     let results: Mutex<Vec<(usize, Value)>> = Mutex::new(vec![]);
     let final_queries: Mutex<Vec<String>> = Mutex::new(vec![]);
